@@ -4,6 +4,7 @@ package main
 import (
 	"verif/vlib"
 
+	_ "verif/checks/chains"
 	_ "verif/checks/parse"
 )
 
